@@ -183,4 +183,11 @@ Qed.
 
 Theorem parse_repl_total : parse_repl maxc r <> PFuel.
 Proof. apply parse_repl_fuel. lia. Qed.
+
+Theorem expansion_total acc :
+  match expand r maxc capf acc with Ok _ | Err EInvalidRepl => True | _ => False end.
+Proof.
+  rewrite expand_eq_spec. pose proof parse_repl_total as T.
+  destruct (parse_repl maxc r); auto.
+Qed.
 End P.
